@@ -1399,6 +1399,16 @@ def builtin_corpus():
     h1 = [['assert', True, 'p', [f('f', v(0))], 0], ['start', 0, 'asserta', [f('p', f('f', v(1)))]], ['start', 1, 'retractall', [f('p', f('f', a('a')))]],
           ['next', 0], ['start', 2, 'p', [v(2)]], ['next', 2], ['next', 1], ['next', 2], ['next', 2], ['start', 2, 'p', [v(3)]], ['drain', 2]]
     L.append({'neng': 2, 'writes': True, 'scripts': [], 'hist': [h0, h1], 'sched': rr(h0, h1)})
+    # generator lifetimes that do not nest, on a fact with a shared variable (Coq: C04_nonvacuous_nonlifo): p(X,X);
+    # g0 = p(V0,a), g1 = p(V1,b) both suspended on the fact, the OLDER one is closed, g2 = p(V2,c) runs while g1 is still
+    # suspended; engine 1: the same through a rule, the older generator exhausted instead of closed, compatible patterns too
+    h0 = [['assert', True, 'p', [v(9), v(9)], 0], ['start', 0, 'p', [v(0), a('a')]], ['next', 0], ['start', 1, 'p', [v(1), a('b')]],
+          ['next', 1], ['close', 0, 0], ['start', 2, 'p', [v(2), a('c')]], ['next', 2], ['next', 1], ['next', 2], ['next', 1]]
+    h1 = [['assert', True, 'p', [f('f', v(8)), v(8)], 1], ['assert', True, 'p', [v(7), i_(1)], 2], ['load', True, 0],
+          ['start', 0, 't', [v(0)]], ['next', 0], ['start', 1, 'p', [f('f', a('b')), v(1)]], ['next', 1], ['next', 0], ['next', 0],
+          ['start', 2, 'p', [f('f', v(2)), a('c')]], ['next', 2], ['start', 0, 'p', [v(3), v(4)]], ['next', 0], ['peek', [v(1), v(2), v(3)]],
+          ['next', 1], ['next', 2], ['next', 1], ['drain', 0], ['next', 2]]
+    L.append({'neng': 2, 'family': 'nl', 'scripts': [[['t', 1, [[[v(0)], [['p', [v(0), v(1)]]]]]]]], 'hist': [h0, h1], 'sched': rr(h0, h1)})
     return L
 
 # ------------------------------------------------------------------ reporting
